@@ -325,7 +325,13 @@ func (e editor) list(from *Selection, to *Selection, m *meta.List, new bool, str
 			return fmt.Errorf("could not create destination list node %s", to.Path)
 		}
 		toChild.Path.Key = key
-		if err = e.enter(fromChild, toChild, newItem, editUpsert, false, false); err != nil {
+		// below a created or merged entry everything is merged in, except for
+		// update, which must find every container it addresses
+		below := editUpsert
+		if strategy == editUpdate {
+			below = editUpdate
+		}
+		if err = e.enter(fromChild, toChild, newItem, below, false, false); err != nil {
 			return err
 		}
 
